@@ -14,11 +14,13 @@
 (***************************************************************************)
 EXTENDS CycleSpace
 Invalid(g) == HasLoop(g) \/ HasParallel(g) \/ HasNonPositive(g)
+\* rank_exits: per-rank exit status when the run was observed rank by rank (vmpi), <<>> otherwise
 DemoViol(ev) ==
   LET g == [n |-> ev.n, edges |-> ev.edges] IN
   IF ev.timedout THEN {"did-not-terminate"}
   ELSE IF Invalid(g) THEN
          (IF ev.exit = 0 THEN {"accepted-invalid-input"} ELSE {})
+    \cup (IF \E k \in 1..Len(ev.rank_exits) : ev.rank_exits[k] = 0 THEN {"some-rank-accepted-invalid-input"} ELSE {})
     \cup (IF ~ev.diag THEN {"no-diagnostic"} ELSE {})
     \cup (IF ev.ranalgo \/ ev.hasweight THEN {"ran-algorithm-on-invalid-input"} ELSE {})
   ELSE (IF ev.exit # 0 THEN {"nonzero-exit-on-valid-input"} ELSE
